@@ -9,20 +9,33 @@
 (* be reproduced on the real handlers before it counts.                        *)
 EXTENDS HttpGateDefs, Json
 CONSTANT K
-VARIABLES kind, vals, used
-vars == <<kind, vals, used>>
+VARIABLES mode, kind, vals, used
+vars == <<mode, kind, vals, used>>
 
-Init == kind \in Kinds /\ vals = <<>> /\ used = 0
+\* mode "near":   any class per dimension, at most K deviations from Default
+\* mode "coarse": Default or one representative deviation per dimension, any number of deviations at once
+\*                (only leaves with more than K deviations are new)
+Rep(k, d) ==
+  CASE d = "listener" -> "other" [] d = "host" -> "other" [] d = "ctype" -> "other"
+    [] d = "accept" -> (IF k = "sse" THEN "other" ELSE "jsononly")
+    [] d = "body" -> (IF k = "sse" THEN "malformed" ELSE "oversize")
+    [] d = "vhdr" -> (IF k = "sse" THEN "absent" ELSE "future")
+    [] d = "meta" -> (IF k = "sse" THEN "absent" ELSE "neNew")
+    [] d \in {"mm", "mn", "mp"} -> (IF k = "sse" THEN "absent" ELSE "different")
+    [] d = "msg" -> "notif"
+Init == mode \in {"near", "coarse"} /\ kind \in Kinds /\ vals = <<>> /\ used = 0
 Choose(v) == LET d == DimSeq[Len(vals) + 1]
                  dev == v # Default(kind, d)
-             IN /\ dev => used < K
+             IN /\ (dev /\ mode = "near") => used < K
                 /\ vals' = Append(vals, v)
                 /\ used' = IF dev THEN used + 1 ELSE used
-                /\ UNCHANGED kind
-Next == Len(vals) < NDims /\ \E v \in Vals(kind, DimSeq[Len(vals) + 1]) : Choose(v)
+                /\ UNCHANGED <<mode, kind>>
+Next == /\ Len(vals) < NDims
+        /\ LET d == DimSeq[Len(vals) + 1]
+           IN \E v \in (IF mode = "near" THEN Vals(kind, d) ELSE {Default(kind, d), Rep(kind, d)}) : Choose(v)
 Spec == Init /\ [][Next]_vars
 
-Complete == Len(vals) = NDims
+Complete == Len(vals) = NDims /\ (mode = "coarse" => used > K)
 Case == ToCase(kind, vals)
 DesignOK(c) == \A o \in Outcomes(c) : Holds(c, o)
 \* state constraint, evaluated once per state of the tree: export the leaf
@@ -33,10 +46,7 @@ Emit == IF Complete /\ ValidCase(Case)
              IN PrintT(ToJson([gatecase |-> c, exp |-> x, first |-> f, cls |-> FaultClass(c, f), lead |-> ~DesignOK(c)]))
         ELSE TRUE
 \* the type of what is enumerated
-TypeOK == /\ kind \in Kinds /\ used \in 0..K /\ Len(vals) <= NDims
+TypeOK == /\ kind \in Kinds /\ (mode = "near" => used \in 0..K) /\ Len(vals) <= NDims
           /\ \A i \in DOMAIN vals : vals[i] \in Vals(kind, DimSeq[i])
           /\ used = Cardinality({i \in DOMAIN vals : vals[i] # Default(kind, DimSeq[i])})
-\* a rejected request either violates a precondition or is rejected by a rule stricter than the property; a request that
-\* is handed to the server violates none (this is Sound on Expected, stated as an invariant so that TLC names the case)
-ExpectedSound == (Complete /\ ValidCase(Case)) => (Expected(Case).reach # "no" => Faults(Case) = {})
 =============================================================================
